@@ -2647,6 +2647,11 @@ srtp_err_status_t srtp_protect(srtp_t ctx,
     } else {
         auth_start = NULL;
         auth_tag = NULL;
+        /*
+         * no tag is computed, but its octets are still counted in the
+         * packet length: don't emit stale buffer contents in their place
+         */
+        memset(srtp + rtp_len + stream->mki_size, 0, tag_len);
     }
 
     /*
